@@ -1,0 +1,114 @@
+//! Verification hooks. Compiled only with `--cfg mini_mcmc_verif`; the library's behaviour is
+//! unchanged (events are recorded only while a log is active).
+use std::sync::Mutex;
+
+#[derive(Clone, Debug)]
+pub enum Event {
+    ReporterTick {
+        phase: u8, // 0 = after draining the channels, 1 = end of the loop body
+        total: u64,
+        recent: Vec<Option<u64>>,
+        active: Vec<usize>,
+        next_active: usize,
+        n_finished: usize,
+    },
+    HmcStep {
+        n_chains: usize,
+        dim: usize,
+        pos_before: Vec<f64>,
+        momenta: Vec<f64>,
+        logp_current: Vec<f64>,
+        h_current: Vec<f64>,
+        pos_proposed: Vec<f64>,
+        mom_proposed: Vec<f64>,
+        logp_proposed: Vec<f64>,
+        h_proposed: Vec<f64>,
+        accept_logp: Vec<f64>,
+        uniform: Vec<f64>,
+        ln_u: Vec<f64>,
+        mask: Vec<bool>,
+        pos_after: Vec<f64>,
+    },
+    NutsStepStart {
+        m: usize,
+        position: Vec<f64>,
+        momentum: Vec<f64>,
+        joint: f64,
+        exp1: f64,
+        logu: f64,
+        epsilon: f64,
+    },
+    NutsDoubling {
+        j: usize,
+        v: i8,
+        u_run_1: f64,
+    },
+    NutsLeaf {
+        v: i8,
+        position: Vec<f64>,
+        momentum: Vec<f64>,
+        joint: f64,
+        n_prime: usize,
+        s_prime: bool,
+        alpha: f64,
+    },
+    NutsMerge {
+        j: usize,
+        u: f64,
+        n_first: usize,
+        n_second: usize,
+        took_second: bool,
+        n_after: usize,
+        s_after: bool,
+        alpha_after: f64,
+        n_alpha_after: usize,
+    },
+    NutsDoublingEnd {
+        n_prime: usize,
+        s_prime: bool,
+        alpha: f64,
+        n_alpha: usize,
+        u_run_2: f64,
+        tmp: f64,
+        accepted: bool,
+        n_after: usize,
+        s_after: bool,
+        position: Vec<f64>,
+    },
+    NutsStepEnd {
+        m: usize,
+        position: Vec<f64>,
+        epsilon: f64,
+        epsilon_bar: f64,
+        h_bar: f64,
+        mu: f64,
+        alpha: f64,
+        n_alpha: usize,
+    },
+}
+
+pub static LOG: Mutex<Option<Vec<Event>>> = Mutex::new(None);
+
+/// Starts (and clears) the event log.
+pub fn start() {
+    *LOG.lock().unwrap() = Some(Vec::new());
+}
+/// Stops logging and returns the recorded events.
+pub fn take() -> Vec<Event> {
+    LOG.lock().unwrap().take().unwrap_or_default()
+}
+pub fn enabled() -> bool {
+    LOG.lock().unwrap().is_some()
+}
+pub fn push(e: Event) {
+    if let Some(v) = LOG.lock().unwrap().as_mut() {
+        v.push(e);
+    }
+}
+
+pub fn tensor_f64<B: burn::prelude::Backend, const D: usize>(t: &burn::prelude::Tensor<B, D>) -> Vec<f64> {
+    t.to_data().convert::<f64>().to_vec::<f64>().unwrap()
+}
+pub fn f<T: num_traits::ToPrimitive>(x: T) -> f64 {
+    x.to_f64().unwrap()
+}
